@@ -193,6 +193,15 @@ def _interval(t, bounds, memo, depth):
         lo = a[0] if a[0] == -INF else a[0] // d
         hi = a[1] if a[1] == INF else a[1] // d
         return (lo, hi)
+    if k in (z3.Z3_OP_IDIV, z3.Z3_OP_DIV):
+        b = rec(ch[1])
+        if b[0] >= 1:   # positive divisor: |a div b| <= |a| and the sign is kept
+            a = rec(ch[0])
+            return (min(a[0], 0), max(a[1], 0))
+    if k == z3.Z3_OP_MOD:
+        b = rec(ch[1])
+        if b[0] >= 1 and b[1] != INF:
+            return (0, b[1] - 1)
     if k == z3.Z3_OP_MOD and z3.is_int_value(ch[1]) and ch[1].as_long() > 0:
         d = ch[1].as_long()
         a = rec(ch[0])
